@@ -121,6 +121,18 @@ Fixpoint vbranch (fuel : nat) (ix : list vnode) (mn : list N) (h : N) : bres :=
            end
   end.
 
+(** ids that the universe reserves for two parent-hash values that are no block
+    hashes: the all-zero hash (the genesis block's parent) and the empty one *)
+Definition zero_par : N := 1000001.
+Definition empty_par : N := 1000002.
+
+(** number of rows of the header table: one per hash in the block-by-hash table *)
+Definition nhdr (st : list (N * N)) : nat := length (nodup N.eq_dec (map fst st)).
+
+(** a header whose ParentHash is neither empty nor all-zero and whose Height is above 0 *)
+Definition plain_hdr (i : item) : bool :=
+  negb (N.eqb (bpar (iblk i)) empty_par) && negb (N.eqb (bpar (iblk i)) zero_par) && negb (bht (iblk i) =? 0).
+
 Section WithOracle.
 Variable verr : N -> N -> N.     (* hash -> body -> 0 (valid) | class of the first failing check *)
 
@@ -261,6 +273,48 @@ Definition vdeliver (fin : Z) (s : vstate) (i : item) : vstate * vout :=
 Definition vstep (fin : Z) (s : vstate) (i : item) : vstate := fst (vdeliver fin s i).
 Definition vrun (fin : Z) (g : block) (h : list item) : vstate := fold_left (vstep fin) h (vinit g).
 
+(** ---- headers with an empty field (the complete ProcessBlock) ----
+
+    [vdeliver] above is ProcessBlock for a block whose header names a parent
+    by a hash that is neither empty nor all-zero and has a height above 0.
+    The other header values take their own ways through ProcessBlock:
+
+    - an empty ParentHash (nil): blockExists(parent) does not find it in the
+      index and asks the header table for the rows whose hash starts with the
+      empty prefix - all of them; blocktable.go getHeaderByIndex panics unless
+      there is exactly one row (with one row, the genesis block's, the answer
+      is "unknown").  blockExists(parent) is called for a known orphan and
+      for every block of height above 0.
+    - the all-zero ParentHash: the index of a node that started on an empty
+      database holds the pre-genesis node (zero hash, height -1), so this
+      parent "exists" and maybeAcceptBlock looks at the height: a block of
+      height 0 - a second genesis block - is stored by dbMaybeStoreBlock and
+      indexed, and connectBestChain then finds no total difficulty for its
+      parent (ErrParentTdNoExist); any other height is refused
+      (ErrBlockHeightNoMatch).
+    - Height 0 with another parent: "the parent exists" is false whatever the
+      index holds; the block is put into the orphan pool. *)
+Definition vdeliver0 (fin : Z) (s : vstate) (i : item) : vstate * vout :=
+  let b := iblk i in
+  if in_vidx (bid b) (vidx s) then (s, (false, false, VExist))
+  else
+    let known := in_vorph (bid b) (vorph s) in
+    let s1 := if known then mkV (vidx s) (remove_vorph (bid b) (vorph s)) (vmain s) (vstore s) else s in
+    if N.eqb (bpar b) empty_par && (2 <=? nhdr (vstore s))%nat && (known || negb (bht b =? 0))
+    then (s, (false, false, VPanic))
+    else if N.eqb (bpar b) zero_par then
+      if bht b =? 0 then
+        (mkV (mkVN b (bdiff b) false (is_down (ipath i)) false :: vidx s1) (vorph s1) (vmain s1)
+             (maybe_store (bid b) (ibody i) (vstore s1)), (false, false, VTd))
+      else (s1, (false, false, VHeight))
+    else if bht b =? 0 then
+      if known && negb (in_vidx (bpar b) (vidx s)) then (s, (false, false, VExist))
+      else (mkV (vidx s1) (vorph s1 ++ [i]) (vmain s1) (vstore s1), (false, true, VNone))
+    else vdeliver fin s i.
+
+Definition vstep0 (fin : Z) (s : vstate) (i : item) : vstate := fst (vdeliver0 fin s i).
+Definition vrun0 (fin : Z) (g : block) (h : list item) : vstate := fold_left (vstep0 fin) h (vinit g).
+
 End WithOracle.
 
 (** total difficulty recorded for the tip *)
@@ -269,3 +323,29 @@ Definition vtip_td (s : vstate) : Z :=
 
 (** LoadBlockByHash: the body served under a hash *)
 Definition served (s : vstate) (h : N) : option N := sget h (vstore s).
+
+(** ---- the signature stage of util.PreExecBlock ----
+
+    What the stage looks at: whether the block signature is absent or
+    verifies, and per transaction (identified by its Hash, which does not
+    cover the signature) whether its signature verifies.  The mempool is asked
+    which of the block's transaction hashes it holds ([pool]); only the others
+    are handed to types.VerifySignature together with the block. *)
+Record sigview := mkSV { sv_bsig : bool; sv_txs : list (N * bool) }.
+
+Definition unverified (pool : list N) (v : sigview) : list (N * bool) :=
+  filter (fun t => negb (memN (fst t) pool)) (sv_txs v).
+
+(** types.VerifySignature(cfg, block, unverifiedTxs) *)
+Definition sig_stage (pool : list N) (v : sigview) : bool :=
+  sv_bsig v && forallb snd (unverified pool v).
+
+(** every signature of the block verifies (what the harness computes, one by one) *)
+Definition sig_valid (v : sigview) : bool := sv_bsig v && forallb snd (sv_txs v).
+
+(** the validity oracle at a receiver whose mempool holds [pool]: class 1
+    (signature) when the stage refuses, else the class [after h b] of the first
+    failing check after it.  [verr_at view after []] is the oracle of the
+    histories (empty mempool). *)
+Definition verr_at (view : N -> N -> sigview) (after : N -> N -> N) (pool : list N) (h b : N) : N :=
+  if sig_stage pool (view h b) then after h b else 1%N.
